@@ -1,6 +1,7 @@
 """Run a tgen program through mako and through the reference, compare."""
 import itertools
 import json
+import os
 
 from vf.core import Failure, HarnessError
 from vf.gen import tenv, tgen
@@ -41,29 +42,27 @@ def run_mako(src, enable_loop=True, page_loop=False, buffer_filters=(), extra_ct
         compile(t.code, "<generated>", "exec")
     except SyntaxError as e:
         return ("code-does-not-compile", str(e))
-    import signal
+    from vf import core as _core
 
-    def _alarm(signum, frame):
-        raise _Timeout()
-
-    old = signal.signal(signal.SIGVTALRM, _alarm)
-    signal.setitimer(signal.ITIMER_VIRTUAL, MAKO_CPU_LIMIT_S, 0.5)  # repeating: a bare `% except:` may swallow the first one
+    _core.note_case({"source": src, "kw": {"enable_loop": enable_loop, "buffer_filters": list(buffer_filters)}},
+                    "mako render did not finish within its CPU budget and could not be interrupted")
     try:
-        return ("ok", t.render_unicode(**ctx))
+        with cpu_guard():
+            try:
+                return ("ok", t.render_unicode(**ctx))
+            except _Timeout:
+                raise
+            except Exception as e:
+                return ("exc", type(e).__name__, str(e)[:200])
     except _Timeout:
         return ("timeout", "render exceeded %.0f s CPU (the reference finished within its step limit)" % MAKO_CPU_LIMIT_S)
-    except Exception as e:
-        return ("exc", type(e).__name__, str(e)[:200])
-    finally:
-        signal.setitimer(signal.ITIMER_VIRTUAL, 0)
-        signal.signal(signal.SIGVTALRM, old)
 
 
 class _Timeout(BaseException):
     pass
 
 
-MAKO_CPU_LIMIT_S = 20.0
+MAKO_CPU_LIMIT_S = 6.0
 
 
 class cpu_guard:
@@ -75,9 +74,33 @@ class cpu_guard:
     def __enter__(self):
         import signal
 
-        def _alarm(signum, frame):
+        here = os.path.dirname(os.path.dirname(os.path.abspath(__file__)))
+
+        def _raiser(fr, event, arg):
+            # armed after the budget is used up: every further line of non-harness code raises again, so that neither a bare
+            # `% except:` nor deep recursion with handlers can keep the render alive
+            if fr.f_code.co_filename.startswith(here):
+                return None
             raise _Timeout()
 
+        def _alarm(signum, frame):
+            import sys
+
+            if self.armed:
+                self.strikes += 1
+                if self.strikes > 24:  # ~12 more CPU seconds of raising on every line did not unwind it
+                    os._exit(71)
+            f = frame
+            while f is not None:
+                if not f.f_code.co_filename.startswith(here):
+                    f.f_trace = _raiser
+                f = f.f_back
+            sys.settrace(_raiser)
+            self.armed = True
+            raise _Timeout()
+
+        self.armed = False
+        self.strikes = 0
         self.old = signal.signal(signal.SIGVTALRM, _alarm)
         signal.setitimer(signal.ITIMER_VIRTUAL, self.limit, 0.5)
         return self
@@ -87,6 +110,10 @@ class cpu_guard:
 
         signal.setitimer(signal.ITIMER_VIRTUAL, 0)
         signal.signal(signal.SIGVTALRM, self.old)
+        if self.armed:
+            import sys
+
+            sys.settrace(None)
         return False
 
 
@@ -269,6 +296,8 @@ def minimise(f, check_case, budget_s=20.0):
     """shrink the program of a failing case, keeping the failure key"""
     case = f.case
     key = f.key
+    if key == "mako-does-not-terminate":
+        return f  # every evaluation would burn the whole CPU budget again
 
     def still(prog):
         try:
